@@ -621,7 +621,8 @@ impl ViCut {
 		}
 
 		if cmd.is_repeatable() {
-			if self.mode.report_mode() == ModeReport::Visual {
+			// (the mode is the editor's, the selection is the buffer's: after a switch of buffers there may be none)
+			if self.mode.report_mode() == ModeReport::Visual && self.current_buffer().is_selecting() {
 				// The motion is assigned in the line buffer execution, so we also have to assign it here
 				// in order to be able to repeat it
 				let range = self.current_buffer().select_range().unwrap().clone();
